@@ -592,7 +592,7 @@ class S:
             return NotImplemented
         if self.is_const() and o.is_const():
             return bool(op(self.const(), o.const()))
-        return B(op(self.term(), o.term()), self, o)
+        return B(op(self.term(), o.term()), self, o, name)
 
     def __gt__(self, o): return self._cmp(o, operator.gt, "gt")
     def __ge__(self, o): return self._cmp(o, operator.ge, "ge")
@@ -639,14 +639,20 @@ class S:
 # NOTE: S must define neither __array_ufunc__ nor __array_priority__, or `ndarray + S` fails.
 
 
+class OutsideExplorer(BaseException):
+    """the code under test branched on a symbolic value in a harness that does not explore paths: a limit of the CHECKER (the case is
+    undecided), never a defect of the code -- derived from BaseException so that no `except Exception` mistakes it for one"""
+
+
 class B:
     """symbolic boolean; bool() is a path decision"""
-    __slots__ = ("c", "l", "r")
+    __slots__ = ("c", "l", "r", "k")
 
-    def __init__(self, c, l, r):
+    def __init__(self, c, l, r, k=None):
         self.c = c
         self.l = l
         self.r = r
+        self.k = k              # eq | ne | lt | le | gt | ge
 
     def __bool__(self):
         c = z3.simplify(self.c)
@@ -665,8 +671,8 @@ class B:
                 sv.add(z3.Not(lit))
                 if sv.check() == z3.unsat:
                     return val
-            raise RuntimeError("symbolic branch outside an Explorer run: %s is not decided by the preconditions" % c)
-        return ex.decide(c, self.l, self.r)
+            raise OutsideExplorer("symbolic branch outside an Explorer run: %s is not decided by the preconditions" % c)
+        return ex.decide(c, self.l, self.r, self.k)
 
     def _s(self):
         return S.of(self)
@@ -702,6 +708,7 @@ class Explorer:
         self.solver = None
         self.unknown_feasibility = 0
         self.inherent_ties = 0
+        self.pins = 0
         self._keepalive = []
 
     def run(self, fn):
@@ -723,6 +730,7 @@ class Explorer:
                 self.solver.add(*sess.axioms)
                 self.ax_seen = set()
                 self.decided = {}
+                self.path_pins = 0
                 self.solver.add(*sess.relevant_axioms(list(self.pre) + list(sess.pre), self.ax_seen))
                 res = fn()
                 results.append((res, list(self.pc)))
@@ -742,10 +750,15 @@ class Explorer:
             self.unknown_feasibility += 1
         return r != z3.unsat
 
-    def decide(self, c, l, r):
+    def decide(self, c, l, r, kind=None):
         """script entries are (value, use_strict). Ties between the two compared terms are excluded (strictness) unless
-        the tie is inherent, i.e. forced by the path condition."""
+        the tie is inherent, i.e. forced by the path condition -- or the code itself TESTS FOR EQUALITY WITH A CONSTANT
+        (`x == 0`, `x != 0`, truthiness, `.any()`): then the code singles that point out, it belongs to the op's domain, and both
+        sides are explored (the path condition then pins the term to the constant)."""
         cid = c.get_id()
+        pin = kind in ("eq", "ne") and (l.is_const() or r.is_const())
+        if pin:
+            self.path_pins = getattr(self, "path_pins", 0) + 1
         if cid in self.decided:
             return self.decided[cid]            # the same comparison was already decided on this path
         strict = (l.n * r.d != r.n * l.d) if not (isc(l.d, 1) and isc(r.d, 1)) else (l.n != r.n)
@@ -755,10 +768,15 @@ class Explorer:
         if self.pos < len(self.script):
             v, use_strict = self.script[self.pos]
         else:
-            use_strict = True
-            ft = self._feasible(c, strict)
-            ff = self._feasible(z3.Not(c), strict)
-            if not ft and not ff:
+            use_strict = not pin
+            if pin:
+                self.pins += 1
+                ft = self._feasible(c)
+                ff = self._feasible(z3.Not(c))
+            else:
+                ft = self._feasible(c, strict)
+                ff = self._feasible(z3.Not(c), strict)
+            if not pin and not ft and not ff:
                 use_strict = False
                 self.inherent_ties += 1
                 ft = self._feasible(c)
